@@ -18,6 +18,7 @@ import json
 import os
 import signal
 import sys
+import time
 import traceback
 
 from vlib import common
@@ -35,6 +36,8 @@ WORDS = ["a", "b", "x1", "-l", "-a", "--flag", "--k=v", "k=v", "./p", "/x/y", "a
 CMDS = ["t", "ok", "fail", "emit"]
 HANG_S = 60          # equivalence part: wall clock (children are involved)
 PARSE_CPU_S = 60     # termination part: CPU seconds of this process (robust against a loaded machine)
+CONFIRM_CPU_S = 1500 # an input over PARSE_CPU_S is run again with this bound before it is called a hang: the recovery loop
+                     # may double the line at every retry (25 retries: 44 characters -> 12 MB, 100-300 CPU-s) and still end
 
 _state = {}
 
@@ -437,19 +440,20 @@ VALID = [
 ]
 
 
-def parse_only(text):
+def parse_only(text, cpu_s=None):
     """-> None when fine (tree / None / SyntaxError), else (kind, detail)."""
     from vlib import session
 
     ex = session.get_execer()
-    signal.setitimer(signal.ITIMER_VIRTUAL, PARSE_CPU_S, 2.0)
+    cpu_s = cpu_s or PARSE_CPU_S
+    signal.setitimer(signal.ITIMER_VIRTUAL, cpu_s, 2.0)
     try:
         try:
             ex.parse(text, ctx=set())
         except SyntaxError:
             return None
         except _Timeout:
-            return ("hang", "Execer.parse did not return within %d CPU-seconds" % PARSE_CPU_S)
+            return ("hang", "Execer.parse did not return within %d CPU-seconds" % cpu_s)
         except RecursionError:
             return ("internal:RecursionError", "RecursionError")
         except BaseException as e:  # noqa: BLE001
@@ -467,7 +471,31 @@ def classify_fuzz(text, kind):
         return "C03-F4"
     if kind.startswith("internal:TypeError@fstring_rules_llm.py:p_fstring_conversion") and "!" in text:
         return "C03-F7"
+    if kind.startswith("internal:AssertionError@base.py:_set_error"):
+        return "C03-F8"
+    if kind.startswith("internal:AssertionError@base.py:_set_var_args") and "*" in text:
+        return "C03-F9"
+    if kind.startswith("internal:AssertionError@v310.py:p_complex_number") and ("+" in text or "-" in text):
+        return "C03-F10"
     return None
+
+
+def confirm_hang(text, st):
+    """An input over the first bound is run again with the long one; only then is it a hang.  -> (kind, detail) / None"""
+    if st.hist.get("hang-confirmations", 0) >= 4:
+        st.inconclusive += 1
+        st.hist["slow-unconfirmed"] = st.hist.get("slow-unconfirmed", 0) + 1
+        return None
+    st.hist["hang-confirmations"] = st.hist.get("hang-confirmations", 0) + 1
+    t0 = time.process_time()
+    r = parse_only(text, CONFIRM_CPU_S)
+    if r is not None and r[0] == "hang":
+        return r
+    st.inconclusive += 1
+    st.hist["slow-but-terminates"] = st.hist.get("slow-but-terminates", 0) + 1
+    if len(st.notes) < 3:
+        st.notes.append("slow but terminating input (%.0f CPU-s): %r" % (time.process_time() - t0, text))
+    return r
 
 
 def worker_fuzz(arg):
@@ -501,6 +529,8 @@ def worker_fuzz(arg):
         except Exception:  # noqa: BLE001
             first_fails = True
         r = parse_only(text)
+        if r is not None and r[0] == "hang":
+            r = confirm_hang(text, st)
         st.case(text, first_fails, ["fuzz", "fuzz:recovery" if first_fails else "fuzz:direct"],
                 sample={"text": text} if first_fails else None, max_per_label=2)
         if r is not None:
@@ -525,6 +555,8 @@ def _shrink_text(f):
     """ddmin on characters keeping the same bucket."""
     text = f.case["text"]
     bucket = f.bucket
+    if bucket == "hang":
+        return f          # every probe would cost the whole bound
     changed = True
     steps = 0
     while changed and steps < 300:
@@ -554,10 +586,17 @@ def _shrink_text(f):
 # ----------------------------------------------------------------------------------------
 
 
+_TIER = "quick"
+
+
 def _replay_case(case):
+    if case.get("thorough_only") and _TIER != "thorough":
+        return None
     if "text" in case:
         fresh_session()
         r = parse_only(case["text"])
+        if r is not None and r[0] == "hang":
+            r = parse_only(case["text"], CONFIRM_CPU_S)
         if r is None:
             return None
         return Failure("hang" if r[0] == "hang" else "internal-exception", case, r[1], finding=classify_fuzz(case["text"], r[0]), bucket=r[0])
@@ -566,6 +605,8 @@ def _replay_case(case):
 
 
 def main(run):
+    global _TIER
+    _TIER = run.tier
     _setup(run.scratch)
     common.replay_tier(run, _replay_case)
     os.chdir(common.VERIF)
